@@ -42,7 +42,14 @@ pub fn c13_resp_user(user: &User) -> (r: Result<UserInfoDetails, IggyError>)
 {
     proof {
         axiom_text_utf8(user.username);
-        if user.permissions is Some { axiom_perm_bytes(user.permissions->0); }
+        if user.permissions is Some {
+            let p = user.permissions->0;
+            axiom_perm_size(p);
+            lemma_perm_orders_ok(p);
+            lemma_perm_rel_intro(p, perm_bytes(p));
+            assert(perm_enc_ok(p, perm_bytes(p)));
+        }
+        assert(perm_block_valid(user_perm_bytes(*user)));
     }
     let b = map_user(user);
     sdk_map_user(b)
@@ -156,7 +163,7 @@ pub fn c13_resp_stream(stream: &Stream) -> (r: Result<StreamDetails, IggyError>)
         stream.name@.len() <= 255,
         forall|i: int| 0 <= i < stream_topics(*stream).len() ==> topic_entity_ok(#[trigger] stream_topics(*stream)[i]),
     ensures
-        r matches Ok(x) && stream_details_head(x) == stream_view(*stream)
+        r matches Ok(x) && stream_details_head(x) == stream_entity_view(*stream)
             && rearranged(topic_views_owned(stream_topics(*stream)), sdk_topic_views(x.topics@)) && topics_sorted(sdk_topic_views(x.topics@))
             && (topics_sorted(topic_views_owned(stream_topics(*stream))) ==> sdk_topic_views(x.topics@) == topic_views_owned(stream_topics(*stream))),
 {
@@ -234,7 +241,7 @@ pub proof fn lemma_hdr_bytes_valid(h: HashMap<HeaderKey, HeaderValue>)
     requires hmap_valid(h@),
     ensures hdr_block_valid(hdr_bytes(h)), lists(es_of(h), hmap_view(h@)),
 {
-    axiom_key_order(h);
+    axiom_hdr_key_order(h);
     lemma_es_of_lists(h);
 }
 // label: C13.resp.polled_message.same
